@@ -49,6 +49,8 @@ class Instr(object):
             return [e[1]] + ([e[2][1]] if e[2][0] == 'line' else [])
         if k == 'copy':
             return [e[2]] if e[1] is None else []
+        if k == 'tax':
+            return [e[1]]
         return []
 
     def __repr__(self):
@@ -152,7 +154,7 @@ def parse(text, label, ordered_labels=None):
 
     b = body_nocarry
     # heading words before the verb ("Total other income. Add lines ...", "Income limitation. Multiply ...")
-    lead = re.match(r'^(?!(?:Add|Combine|Subtract|Multiply|Enter|If line|Divide)\b)(?:[A-Z][^.]*?\.\s+){1,3}?(?=(?:Add|Combine|Subtract|Multiply|Enter|If line|Divide)\b)', b)
+    lead = re.match(r'^(?!(?:Add|Combine|Subtract|Multiply|Enter|If line|Divide|Figure)\b)(?:[A-Z][^.]*?\.\s+){1,3}?(?=(?:Add|Combine|Subtract|Multiply|Enter|If line|Divide|Figure)\b)', b)
     if lead:
         b = b[lead.end():]
 
@@ -170,6 +172,15 @@ def parse(text, label, ordered_labels=None):
                 if fm:
                     expr = ('cap0', expr)
                     rest = rest[fm.end():]
+    if expr is None:
+        m = re.match(rf'^Add (?P<f1>Form 1040)(?: or 1040-SR)?, line (?P<a>{LAB}),? and (?P<f2>Form 1040)(?: or 1040-SR)?, line (?P<b>{LAB})\.', b)
+        if m:
+            done(('addf', find_form(m.group('f1')), [m.group('a'), m.group('b')]), m, b)
+    if expr is None:
+        m = re.match(rf'^Figure the tax on the amount on line (?P<a>{LAB})\.', b)
+        if m:
+            done(('tax', m.group('a')), m, b)
+            rest = ''      # the sentences that follow say where to look the tax up
     if expr is None:
         m = re.match(rf'^Add the amounts on line (?P<a>{LAB})\.', b)
         if m:
@@ -250,9 +261,14 @@ def parse(text, label, ordered_labels=None):
 
 
 # ---------------------------------------------------------------------------
-def evaluate(expr, get):
-    """get(label) -> float (0.0 when blank/absent). Returns float or None (not applicable)"""
+def evaluate(expr, get, tax=None):
+    """get(label) -> float (0.0 when blank/absent). Returns float or None (not applicable).
+    tax(amount) -> the year's income tax on that taxable income for the return's filing status (needed by 'tax')"""
     k = expr[0]
+    if k == 'tax':
+        return None if tax is None else tax(get(expr[1]))
+    if k == 'addf':
+        return None            # operands live on another form: resolved by the caller (end-to-end only)
     if k == 'floor0':
         r = evaluate(expr[1], get)
         return None if r is None else max(0.0, r)
